@@ -108,7 +108,9 @@ class pyparsing_test:
                 "recursion_enabled"
             ]
 
-            __compat__.collect_all_And_tokens = self._save_context["__compat__"]
+            __compat__.collect_all_And_tokens = self._save_context["__compat__"][
+                "collect_all_And_tokens"
+            ]
 
             return self
 
